@@ -20,7 +20,9 @@ type c04ReadCase struct {
 }
 
 type c04WriteCase struct {
-	Doc ssaDoc `json:"doc"`
+	// Foreign: the list carries metadata of other formats; the file-level helper is exercised as well
+	Foreign bool   `json:"foreign,omitempty"`
+	Doc     ssaDoc `json:"doc"`
 }
 
 func init() {
@@ -87,11 +89,14 @@ func checkC04Read(c c04ReadCase) string {
 	if m := diffSSA(want, got, "reader", x); m != "" {
 		return fmt.Sprintf("%s\n--- document (%d bytes) ---\n%s", m, len(b), clip(string(b), 1500))
 	}
-	return ""
+	return rereadStable("ssa", b, readOpts{}, s)
 }
 
 func checkC04Write(c c04WriteCase) string {
 	s := toSubtitlesSSA(c.Doc)
+	if c.Foreign {
+		addForeignMetadata("ssa", s)
+	}
 	var buf bytes.Buffer
 	err := s.WriteToSSA(&buf)
 	if len(c.Doc.Events) == 0 {
@@ -131,6 +136,11 @@ func checkC04Write(c c04WriteCase) string {
 	}
 	if !bytes.Equal(buf2.Bytes(), out) {
 		return fmt.Sprintf("reading what was written and writing again changes the bytes\n--- first ---\n%s\n--- second ---\n%s", clip(string(out), 1200), clip(buf2.String(), 1200))
+	}
+	if c.Foreign {
+		if m := fileWriteAgrees("ssa", s); m != "" {
+			return m
+		}
 	}
 	return ""
 }
@@ -273,7 +283,7 @@ func TestC04(t *testing.T) {
 	rapidCheck(t, "C04/write", tier(2000, 200000), func(rt *rapid.T) {
 		doc, _ := genSSADoc(rt, true)
 		addEmptySSALines(rt, &doc)
-		c := c04WriteCase{Doc: doc}
+		c := c04WriteCase{Doc: doc, Foreign: rapid.IntRange(0, 2).Draw(rt, "foreign") == 0}
 		nt, ls := c04Labels(c.Doc, nil)
 		ev.Case(nt, fmt.Sprintf("w%v", c), append(ls, "write")...)
 		if nt && len(c.Doc.Events) <= 2 {
